@@ -1,0 +1,30 @@
+//go:build verif
+
+// Package verifhook re-exports internal packages to the external verification harness.
+// It is only compiled with the build tag "verif".
+package verifhook
+
+import (
+	"time"
+
+	"github.com/aptpod/iscp-go/internal/segment"
+)
+
+type (
+	SegmentSender      = segment.Sender
+	SegmentReadBuffers = segment.ReadBuffers
+	SegmentReadBuffer  = segment.ReadBuffer
+)
+
+// SegmentSendTo is segment.SendTo.
+func SegmentSendTo(wr SegmentSender, seqNum uint32, msgPayload []byte) (int, error) {
+	return segment.SendTo(wr, seqNum, msgPayload)
+}
+
+// SegmentSetTimeNow replaces the clock of package segment and returns a restore function.
+func SegmentSetTimeNow(f func() time.Time) (restore func()) {
+	return segment.VerifSetTimeNow(f)
+}
+
+// SegmentMaxPayloadSize returns the maximum payload size of one segment.
+func SegmentMaxPayloadSize() int { return segment.VerifMaxPayloadSize() }
